@@ -1,1 +1,1 @@
-INVARIANTS RoundTrip DecTotal NotVacuous
+INVARIANTS RoundTrip
